@@ -89,8 +89,14 @@ def case_arrays(case):
         # tame the dynamics: Lipschitz constant x horizon stays O(1), so trajectories do not blow up
         T = float(np.sum(case["incs"]))
         C *= min(1.0, 1.0 / T)
+        if getattr(field, "implicit", False):
+            # keep d r / d u^(k) = I + (small): the observation stays informative about the highest derivative
+            lo = field.d * field.ode_order
+            for m, a in enumerate(field.alpha):
+                if any(a[lo : lo + field.d]):
+                    C[:, m] *= 0.25
     tc = np.asarray(case["tc"], float)
-    if case.get("tc_mode") == "consistent":
+    if case.get("tc_mode") == "consistent" and not getattr(field, "implicit", False):
         # Taylor coefficients of the true solution (what a user passes); float series arithmetic
         from vlib.ref import series
 
@@ -174,7 +180,7 @@ def prior_drift(case):
 def make_spec(case, mp=False):
     cfg = case["cfg"]
     field, C, tc, grid, base_vec = case_arrays(case)
-    lin = "ts1" if cfg["lin"] in ("ts1", "residual") else "ts0"
+    lin = "ts1" if cfg["lin"] in ("ts1", "residual") else cfg["lin"]
     return K.Spec(n=cfg["n"], d=cfg["d"], field=field, C=C, lin=lin, fact=cfg["fact"], damp=case["damp"],
                   base=base_vec, calib=CALIB_REF[cfg["calib"]], mle_correction=cfg["calib"] == "mle",
                   cinit=cfg.get("cinit", False), mp=mp, drift=prior_drift(case))
